@@ -106,6 +106,120 @@ Definition rec_randint (n : nat) (r : list draw) : nat * list draw :=
 Definition rec_uniform (lo hi : flt) (r : list draw) : flt * list draw :=
   match r with DUniform f :: r' => (f, r') | _ => (lo, r) end.
 
+(* ---- C12: encoders / decoders of the views ------------------------------------------------------
+   nest   ::= (0 dval) | (1 nest ...) | (2 nest ...)                       scalar / list / tuple
+   dkey   ::= (0 lkey ...) | (1 (cp ...)) | (2 i ...)                       id / name / spec address
+   dleaf  ::= (0) | (1 dval) | (2 dna) | (3 i n) | (4 i n lit) | (5 lit)
+   dvalue ::= (0 dleaf) | (1 dleaf ...)         dict ::= ((dkey dvalue) ...)
+   bdna   ::= (dval spec? bdna ...)             spec? ::= () | ((i ...))
+   case ::= (10 lossy spec sdna)                 -> (numbers nested compact (value compact...))
+          | (11 quirks spec (dval ...))          -> (bdna?)          from_numbers
+          | (12 nest)                            -> (dna?)           DNA(nested value)
+          | (13 quirks spec sdna kt vt mc inact) -> (dict?)          to_dict of the bound DNA
+          | (14 quirks spec dict ints_as_lits)   -> (bdna?)          from_dict
+          | (15 quirks spec sdna)                -> (dict ((name dvalue) ...))   _decision_by_id, named_decisions
+          | (16 quirks spec dna)                 -> (bdna?)          use_spec, with the spec bound to every node
+          | (17 spec)                            -> ((addr id name? sub?) ...)   decision_points with their ids
+          | (18 dval (nest ...))                 -> (dna?)           verbose JSON form *)
+Fixpoint e_nest (x : nest) : tr :=
+  match x with NV v => L [I 0; e_dval v] | NL l => L (I 1 :: map e_nest l) | NT l => L (I 2 :: map e_nest l) end.
+Fixpoint d_nest (fuel : nat) (t : tr) : option nest :=
+  match fuel with O => None | S f =>
+    match t with
+    | L [I 0; v] => do v' <- d_dval v; Some (NV v')
+    | L (I 1 :: l) => do l' <- dall (d_nest f) l; Some (NL l')
+    | L (I 2 :: l) => do l' <- dall (d_nest f) l; Some (NT l')
+    | _ => None end end.
+Definition e_ikey (k : ikey) : tr :=
+  match k with KName s => L [I 0; estr s] | KIdx i => L [I 1; enat i] | KCond i n => L [I 2; enat i; enat n] end.
+Definition e_lit (l : lit) : tr := match l with LStr s => L [I 0; estr s] | LInt z => L [I 1; I z] | LFlt f => L [I 2; I f] end.
+Definition e_dkey (k : dkey) : tr :=
+  match k with DKId i => L (I 0 :: map e_ikey i) | DKName s => L [I 1; estr s] | DKSpec a => L (I 2 :: map enat a) end.
+Definition d_dkey (t : tr) : option dkey :=
+  match t with
+  | L (I 0 :: l) => do l' <- dall d_lkey l; Some (DKId l')
+  | L [I 1; s] => do s' <- dstr s; Some (DKName s')
+  | L (I 2 :: l) => do l' <- dall dnat l; Some (DKSpec l')
+  | _ => None end.
+Definition e_dleaf (x : dleaf) : tr :=
+  match x with
+  | LfNone => L [I 0] | LfV v => L [I 1; e_dval v] | LfDna d => L [I 2; e_dna d]
+  | LfChoice i n => L [I 3; enat i; enat n] | LfChoiceLit i n l => L [I 4; enat i; enat n; e_lit l] | LfLit l => L [I 5; e_lit l] end.
+Definition d_dleaf (t : tr) : option dleaf :=
+  match t with
+  | L [I 0] => Some LfNone
+  | L [I 1; v] => do v' <- d_dval v; Some (LfV v')
+  | L [I 2; d] => do d' <- d_dna 60 d; Some (LfDna d')
+  | L [I 3; i; n] => do i' <- dnat i; do n' <- dnat n; Some (LfChoice i' n')
+  | L [I 4; i; n; l] => do i' <- dnat i; do n' <- dnat n; do l' <- d_lit l; Some (LfChoiceLit i' n' l')
+  | L [I 5; l] => do l' <- d_lit l; Some (LfLit l')
+  | _ => None end.
+Definition e_dvalue (v : dvalue) : tr := match v with DS x => L [I 0; e_dleaf x] | DL l => L (I 1 :: map e_dleaf l) end.
+Definition d_dvalue (t : tr) : option dvalue :=
+  match t with
+  | L [I 0; x] => do x' <- d_dleaf x; Some (DS x')
+  | L (I 1 :: l) => do l' <- dall d_dleaf l; Some (DL l')
+  | _ => None end.
+Definition e_dict (d : dict) : tr := L (map (fun kv => L [e_dkey (fst kv); e_dvalue (snd kv)]) d).
+Definition d_dict (t : tr) : option dict := dlist (dpair d_dkey d_dvalue) t.
+Fixpoint e_bdna (b : bdna) : tr :=
+  match b with B v sp cs => L (e_dval v :: eopt (fun a => L (map enat a)) sp :: map e_bdna cs) end.
+Definition d_kt (t : tr) : option key_type :=
+  match t with I 0 => Some KT_id | I 1 => Some KT_name_or_id | I 2 => Some KT_dna_spec | _ => None end.
+Definition d_vt (t : tr) : option value_type :=
+  match t with I 0 => Some VT_value | I 1 => Some VT_dna | I 2 => Some VT_choice | I 3 => Some VT_literal | I 4 => Some VT_choice_and_literal | _ => None end.
+Definition d_mc (t : tr) : option mc_key :=
+  match t with I 0 => Some MC_subchoice | I 1 => Some MC_parent | I 2 => Some MC_both | _ => None end.
+Definition e_info (i : dpinfo) : tr :=
+  L [L (map enat (i_addr i)); L (map e_ikey (i_id i)); eopt estr (i_name i);
+     eopt (fun x => enat (fst (fst x))) (i_sub i)].
+
+Definition run_views (op : Z) (args : list tr) : tr :=
+  match op, args with
+  | 10, [lossy; s; d] =>
+      match dbool lossy, d_spec 60 s, d_sdna 60 d with
+      | Some lo, Some sp, Some sd =>
+          let x := normalize sd in
+          L [L (map e_dval (to_numbers x)); e_nest (to_nested lo x); e_nest (to_compact x);
+             L (e_dval (fst (to_verbose x)) :: map e_nest (snd (to_verbose x)))]
+      | _, _, _ => ebad end
+  | 11, [q; s; l] =>
+      match d_quirks q, d_spec 60 s, dlist d_dval l with
+      | Some q', Some sp, Some l' => L [eopt e_bdna (from_numbers q' sp l')]
+      | _, _, _ => ebad end
+  | 12, [x] => match d_nest 60 x with Some x' => L [eopt e_dna (parse_nest 60 x')] | None => ebad end
+  | 13, [q; s; d; kt; vt; mc; ina] =>
+      match d_quirks q, d_spec 60 s, d_sdna 60 d with
+      | Some q', Some sp, Some sd =>
+          match d_kt kt, d_vt vt, d_mc mc, dbool ina with
+          | Some kt', Some vt', Some mc', Some ina' =>
+              L [eopt (fun b => e_dict (to_dict (decision_points sp) kt' vt' mc' ina' b)) (bind q' sp (normalize sd))]
+          | _, _, _, _ => ebad end
+      | _, _, _ => ebad end
+  | 14, [q; s; d; il] =>
+      match d_quirks q, d_spec 60 s, d_dict d, dbool il with
+      | Some q', Some sp, Some d', Some il' => L [eopt e_bdna (from_dict il' q' sp d')]
+      | _, _, _, _ => ebad end
+  | 15, [q; s; d] =>
+      match d_quirks q, d_spec 60 s, d_sdna 60 d with
+      | Some q', Some sp, Some sd =>
+          match bind q' sp (normalize sd) with
+          | Some b => L [e_dict (decision_by_id (decision_points sp) b);
+                         L (map (fun kv => L [estr (fst kv); e_dvalue (snd kv)]) (named_decisions (decision_points sp) b))]
+          | None => L [] end
+      | _, _, _ => ebad end
+  | 16, [q; s; d] =>
+      match d_quirks q, d_spec 60 s, d_dna 60 d with
+      | Some q', Some sp, Some dn => L [eopt e_bdna (bind q' sp dn)]
+      | _, _, _ => ebad end
+  | 17, [s] => match d_spec 60 s with Some sp => L [L (map e_info (decision_points sp))] | None => ebad end
+  | 18, [v; l] =>
+      match d_dval v, dlist (d_nest 60) l with
+      | Some v', Some l' => L [eopt e_dna (parse_verbose 60 (v', l'))]
+      | _, _ => ebad end
+  | _, _ => ebad
+  end.
+
 Definition FUEL := 60%nat.
 
 Definition run (c : tr) : tr :=
@@ -146,6 +260,6 @@ Definition run (c : tr) : tr :=
       match d_spec FUEL s, dnat lim with
       | Some sp, Some n => L [L (map (fun d => e_dna (normalize d)) (firstn n (all_valid sp)))]
       | _, _ => ebad end
-  | L (I op :: args) => if 10 <=? op then run_views FUEL op args else ebad
+  | L (I op :: args) => if 10 <=? op then run_views op args else ebad
   | _ => ebad
   end.
